@@ -7,6 +7,7 @@ From LR Require Import lib.Base lib.GoStr model.LqlAst model.LqlLex model.LqlPar
 From LR Require Import proofs.LqlParseP proofs.LqlStmtP proofs.LqlIntP proofs.LqlLexP proofs.LqlTextP proofs.LqlQuoteP proofs.LqlProdP.
 From LR Require Import model.LqlTime model.LqlTimeFmt proofs.C20TablesP proofs.LqlTimeFmtP.
 From Coq Require Import Strings.String.
+From LR Require gen.Consts.
 Local Open Scope string_scope.
 Local Open Scope list_scope.
 
@@ -315,3 +316,14 @@ Example sample_text_hyps :
   all_conds_expr wt_cond sample_e = true /\ all_conds_expr (vq_cond qx go_unquote) sample_e = true /\
   parse_expr_text go_unquote (pr_expr qx sample_e) = Some (Some sample_e).
 Proof. repeat split; vm_compute; reflexivity. Qed.
+
+
+(* the lexer the model was written after is the lexer the Go source has now (coq/gen/Consts.v is regenerated from
+   pkg/lql/parser.go on every run): the keyword list of model/LqlLex.v is the Keyword class of the source, in its order,
+   and the regular expression - whose other token classes lex_ident / lex_string / lex_operator / lex_number / lex_tags
+   transcribe - is literally this text.  An edit of a token class in the Go source breaks this Example; the
+   correspondence check and the oracle then look for a statement on which model and code differ. *)
+Example C12_lexer_table :
+  keywords = map B Consts.go_lqlKeywords /\
+  Consts.go_lqlLexerPattern = "(\s+)|(?P<Keyword>(?i)SELECT|DESCRIBE|TRUNCATE|DELETE|DRYRUN|BEFORE|MAXSIZE|MINSIZE|MAXDBSIZE|FROM|RANGE|WHERE|PARTITIONS|PARTITION|PIPES|SHOW|CREATE|PIPE|POSITION|LIMIT|OFFSET|AND|OR|LIKE|CONTAINS|PREFIX|SUFFIX|NOT|\[|\]|\:)|(?P<Ident>[a-zA-Z_][a-z\./\-A-Z0-9_:]*)|(?P<String>""([^\\""]|\\.)*""|'[^']*')|(?P<Operator><>|!=|<=|>=|[-+*/%,.=<>()])|(?P<Number>[-+]?\d*\.?\d+([eE][-+]?\d+|[mMkKgGtTbBpP][ib]{0,2})?)|(?P<Tags>\{.+\})"%string.
+Proof. split; reflexivity. Qed.
